@@ -17,11 +17,20 @@ Ascii(n, a) == [i \in 1..n |-> 32 + ((a + i) % 95)]
 \* how many decimal digits the field can carry, from its length style
 MaxDigits(f) == IF f.len.s = "Fixed" THEN 2 * f.len.n ELSE 20
 
+\* numbers whose BCD image looks like structure: the number of a bitmap the layouts use (06, 04, 19, 27, 29, 49, 60, 87) as the first
+\* byte, then a length byte that announces nothing or exactly the bytes that remain - a decoder that looks ahead must not take the
+\* value for the element that may follow it
+LookAlike(nbytes) ==
+  IF nbytes < 2 THEN {}
+  ELSE {DNorm(<<t[1], t[2], l \div 10, l % 10>> \o [i \in 1..(2 * (nbytes - 2)) |-> (i + 4) % 10]) :
+          <<t, l>> \in {<<0, 6>>, <<0, 4>>, <<1, 9>>, <<2, 7>>, <<2, 9>>, <<4, 9>>, <<6, 0>>, <<8, 7>>} \X {0, nbytes - 2, 2, 6}}
+
 IntBounds(f) ==
   LET w == f.enc.w
       md == MaxDigits(f)
       cand == IF f.enc.e = "Bcd"
               THEN {Nines(k) : k \in 0..md} \cup {Pow10(k) : k \in 0..(md - 1)} \cup {DMaxU(w)} \cup {<<2, 5, 0, 0>>, <<9, 7, 8>>}
+                   \cup (IF f.len.s = "Fixed" THEN LookAlike(f.len.n) ELSE {})
               ELSE IF f.enc.e = "Receipt"
               THEN {<<>>, <<1>>, <<9>>, <<1, 0>>, <<9, 9>>, <<1, 0, 0>>, <<2, 3, 1>>, <<9, 9, 9>>, <<1, 0, 0, 0>>, <<9, 9, 9, 9>>, D65535}
               ELSE {<<>>, <<1>>, <<1, 2, 7>>, <<1, 2, 8>>, <<2, 5, 5>>, <<2, 5, 6>>, <<6, 5, 5, 3, 5>>, <<6, 5, 5, 3, 6>>,
@@ -49,7 +58,12 @@ TextBounds(f) == {Pat(n, 64, 1) : n \in VarLens(f)} \cup {Pat(n, 255, 255) : n \
                                                                    /\ (f.len.s # "Llv" \/ m <= 99) /\ (f.len.s # "Temperature" \/ m \in {3, 4})}}
 HexBounds(f)  == {Pat(n, 160, 1) : n \in VarLens(f)} \cup {Rep(0, n) : n \in VarLens(f)} \cup {Rep(255, n) : n \in VarLens(f)}
 RawBounds(f)  == {Pat(n, 3, 7) : n \in VarLens(f) \ {0}} \cup {Rep(0, n) : n \in (VarLens(f) \ {0}) \cap {1, 2, 300}}
+\* (a byte order mark in front, inside and alone; line ends and blanks at either end; long texts of 2-, 3- and 4-byte characters shifted
+\* by 0..3 bytes, so that a character straddles every byte offset a decoder might cut at)
+RepSeq(u, k) == [i \in 1..(k * Len(u)) |-> u[((i - 1) % Len(u)) + 1]]
 Utf8Bounds(f) == {Ascii(n, 3) : n \in VarLens(f)} \cup {<<226, 130, 172>>, <<240, 159, 166, 128, 65>>, <<195, 164, 0, 66>>}
+                 \cup {<<239, 187, 191>>, <<239, 187, 191, 86, 49>>, <<86, 239, 187, 191, 49>>, <<65, 10>>, <<65, 13, 10>>, <<32, 65, 32>>, <<9, 65>>}
+                 \cup {Ascii(sh, 5) \o RepSeq(u, 70) : <<sh, u>> \in (0..3) \X {<<195, 164>>, <<226, 130, 172>>, <<240, 159, 166, 128>>}}
 DtBounds == {<<2023, 11, 5, 12, 34, 56>>, <<2023, 12, 31, 23, 59, 59>>, <<2024, 2, 29, 0, 0, 0>>, <<0, 1, 1, 0, 0, 0>>,
              <<9999, 12, 31, 23, 59, 59>>, <<1999, 10, 10, 10, 10, 10>>}
 
